@@ -602,6 +602,18 @@ def run(case):
             c.cmp(f"{matname}/vector", "uniform-grid region vs general region: vector", res[1][0], res[0][0], 1e-12)
             c.cmp(f"{matname}/matrix", "uniform-grid region vs general region: matrix", res[1][1], res[0][1], 1e-12)
             c.cmp(f"{matname}/F", "uniform-grid region vs general region: deformation gradient", res[1][2], res[0][2], 1e-13)
+        # integrands that do not depend on the cell (constant linear-elastic tangent, mass, body force): their integrated values
+        # keep a cell axis of length one on the uniform region and are expanded at assembly
+        res = []
+        for R in (Rg, Ru):
+            f = fem.FieldContainer([fem.Field(R, dim=mesh.dim, values=u.copy())])
+            le = fem.LinearElastic(E=2.0, nu=0.3) if mesh.dim == 3 else fem.constitution.LinearElasticPlaneStress(E=2.0, nu=0.3)
+            b = fem.SolidBody(le, f, density=1.7)
+            bf = fem.SolidBodyForce(f, values=[0.3, -0.2, 0.5][: mesh.dim], scale=2.0)
+            res.append((b.assemble.matrix(f).toarray(), b.assemble.vector(f).toarray()[:, 0], b.assemble.mass().toarray(), bf.assemble.vector(f).toarray()[:, 0]))
+            c.trans += 4
+        for k_, lab_ in enumerate(("linear-elastic/matrix", "linear-elastic/vector", "mass", "body-force")):
+            c.cmp(f"constant-integrand/{lab_}", "uniform-grid region vs general region for an integrand that is the same in every cell", res[1][k_], res[0][k_], 1e-12)
         # mixed field on the uniform region
         if fam in ("quad", "hexahedron"):
             res = []
